@@ -3,6 +3,9 @@ package harness
 import (
 	"fmt"
 	"sort"
+	"time"
+
+	"verifsim/wire"
 )
 
 // C08 — application traffic flows only inside a completed logon.
@@ -159,6 +162,10 @@ func runC08(env *Env, tier string) {
 			s.P.Collect()
 			env.Stat("probe_send_any_time")
 		}
+		if ch.Chance("pipelinedpair", 1, 6) && a.ensureSession() && s.E.App.LoggedOn() {
+			c08PipelinedPair(env, s, a)
+			continue
+		}
 		if a.Step() == "unreachable" {
 			break
 		}
@@ -171,4 +178,57 @@ func runC08(env *Env, tier string) {
 	s.P.Collect()
 	lo, en := CheckC08(env, s, false)
 	env.State(fmt.Sprintf("logons=%d ends=%d stopped=%v", min(lo, 3), min(en, 3), s.E.stopped))
+}
+
+// c08PipelinedPair sends two messages back to back while the application is slow handling the first: the
+// second waits in the session's inbound channel while the first is processed. The first is one that makes
+// the engine end the connection itself (or an ordinary message, as a control); the second is an
+// application message in sequence behind it.
+func c08PipelinedPair(env *Env, s *Sut, a *Adv) {
+	ch, p := env.Ch, s.P
+	// keep every engine timer out of the window in which the second message is waiting (two ready sources
+	// for the session's select would be decided by Go, not by the simulator: R1)
+	env.QuietWindow(30 * time.Millisecond)
+	p.Collect()
+	if !p.Connected() || !s.E.App.LoggedOn() {
+		return
+	}
+	T := a.engT()
+	p.OutSeq = T
+	kind := ch.Choose("pairfirst", 6)
+	var x []byte
+	switch kind {
+	case 0: // Logout
+		x, _ = p.Build("5", nil, MsgOpt{})
+	case 1: // stale SendingTime: Reject + Logout
+		x, _ = p.Build("D", AppBody(p.NextID()), MsgOpt{TimeDelta: -10 * time.Minute})
+	case 2: // wrong TargetCompID: Reject + Logout
+		wrong := "NOBODY"
+		x, _ = p.Build("D", AppBody(p.NextID()), MsgOpt{Target: &wrong})
+	case 3: // too low without PossDup: Logout
+		if T > 2 {
+			x, _ = p.Build("D", AppBody(p.NextID()), MsgOpt{Seq: 1})
+		} else {
+			x, _ = p.Build("0", nil, MsgOpt{})
+		}
+	case 4: // ordinary application message (control)
+		x, _ = p.Build("D", AppBody(p.NextID()), MsgOpt{})
+	case 5: // TestRequest (control, administrative)
+		x, _ = p.Build("1", []wire.Field{wire.F(112, "PP"+p.NextID())}, MsgOpt{})
+	}
+	y, _ := p.Build("D", AppBody(p.NextID()), MsgOpt{})
+	env.Stat("probe_pipelined_pair_" + []string{"logout", "staletime", "compid", "toolow", "app", "testrequest"}[kind])
+	s.E.App.SlowNext.Store(int64(5 * time.Millisecond))
+	env.Rec(fmt.Sprintf("peer>:%d", p.Conn), "peer>", string(x), true)
+	p.EP.Feed(x)
+	env.Settle()
+	if !p.EP.IsClosed() {
+		env.Rec(fmt.Sprintf("peer>:%d", p.Conn), "peer>", string(y), true)
+		p.EP.Feed(y)
+		env.Settle()
+	}
+	env.Advance(20 * time.Millisecond)
+	env.AddAnchor()
+	s.E.App.SlowNext.Store(0)
+	p.Collect()
 }
